@@ -168,14 +168,24 @@ pub fn load_known(verif: &Path) -> Vec<KnownFinding> {
     v
 }
 
+/// Scratch base: `/dev/shm/zsim`, or `/dev/shm/zsim-<slot>` when ZCHECK_SLOT is set (lets a
+/// background sweep run beside the registered checks without sharing case directories; the
+/// absolute path is part of the input, so a slot explores other hash orders).
+pub fn scratch_base() -> String {
+    match std::env::var("ZCHECK_SLOT") {
+        Ok(s) if !s.is_empty() => format!("/dev/shm/zsim-{}", s),
+        _ => "/dev/shm/zsim".to_string(),
+    }
+}
+
 pub fn case_root(prop: &str, case_no: u64) -> PathBuf {
-    PathBuf::from(format!("/dev/shm/zsim/{}/c{}", prop, case_no))
+    PathBuf::from(format!("{}/{}/c{}", scratch_base(), prop, case_no))
 }
 
 pub struct Lock(i32);
 pub fn lock_property(prop: &str) -> Lock {
-    let _ = std::fs::create_dir_all("/dev/shm/zsim");
-    let path = std::ffi::CString::new(format!("/dev/shm/zsim/{}.lock", prop)).unwrap();
+    let _ = std::fs::create_dir_all(scratch_base());
+    let path = std::ffi::CString::new(format!("{}/{}.lock", scratch_base(), prop)).unwrap();
     unsafe {
         let fd = libc::open(path.as_ptr(), libc::O_CREAT | libc::O_RDWR, 0o644);
         if fd >= 0 {
